@@ -6,18 +6,7 @@ import HctlModel.Proto
 import HctlModel.EvalProto
 open Hctl Hctl.Proto
 
-def classOf (table : List (Char × Char)) : CharClass :=
-  { isAlnum := fun c => table.lookup c == some 'a'
-    isWs := fun c => table.lookup c == some 'w' }
-
-/-- `cp:cls,cp:cls,...` or `-` -/
-def decChars (s : String) : List Char × List (Char × Char) :=
-  if s == "-" then ([], []) else
-  let items := (s.splitOn ",").map (fun it =>
-    match it.splitOn ":" with
-    | [cp, cls] => (Char.ofNat cp.toNat!, (cls.toList.headD 'o'))
-    | _ => ('?', 'o'))
-  (items.map (·.1), items)
+open Hctl.EvalProto (classOf decChars)
 
 def subtreeInfo (t : Tree) : String :=
   " ".intercalate (t.subtrees.map (fun s => s!"{s.height}:{encName s.render}"))
@@ -101,6 +90,7 @@ partial def loop (h : IO.FS.Stream) (st : EvalProto.DriverState) : IO Unit := do
     match EvalProto.handle? st l with
     | some (st', out) =>
       IO.println out
+      (← IO.getStdout).flush
       loop h st'
     | none =>
       IO.println (handle l)
